@@ -246,13 +246,21 @@ c.loop(("step_parity == 0 and self._current_token.type == tokenize.NAME or "
        [Clause('parts_are_the_consumed_tokens_and_end_is_the_last_one', _sel_inv)],
        havoc=['self._current_token', 'self.ghost_pos'], ghost=['lastpos'],
        body_start=_sel_body_start)
-c.ensure('accepted_only_if_it_equals_the_raw_text_between_first_and_last_token', lambda x: z3.And(
-    x.env.ghost_lastpos.e >= pos(x.self_old),
-    x.result.e == str_slice(
+def _raw_text_rule(x):
+  def at(lp):
+    return z3.And(lp >= pos(x.self_old), lp < pos(x.self_new), x.result.e == str_slice(
         _first(x).fields['line'].e, _first(x).fields['start'].items[1].e,
-        TOK(gen(x.self_old), x.env.ghost_lastpos.e).fields['end'].items[1].e)))
-c.ensure('is_the_concatenation_of_the_consumed_tokens', lambda x: x.result.e ==
-         world.str_join(sym.str_lit(''), x.env.selector_parts))
+        TOK(gen(x.self_old), lp).fields['end'].items[1].e))
+  if 'ghost_lastpos' in x.env:          # in the function's own proof: the ghost witness
+    return at(x.env.ghost_lastpos.e)
+  lp = z3.Int('lp!sel')                  # at call sites: some consumed token is the last one
+  return z3.Exists([lp], at(lp))
+
+
+c.ensure('accepted_only_if_it_equals_the_raw_text_between_first_and_last_token', _raw_text_rule)
+c.ensure('is_the_concatenation_of_the_consumed_tokens', lambda x: (
+    x.result.e == world.str_join(sym.str_lit(''), x.env.selector_parts))
+    if 'selector_parts' in x.env and 'ghost_lastpos' in x.env else z3.BoolVal(True))
 c.ensure('starts_with_a_name', lambda x: _first(x).fields['type'].e == toktype('NAME'))
 c.ensure('cursor_moved_past_the_name', lambda x: z3.And(
     pos(x.self_new) > pos(x.self_old), synced(x.self_new)))
@@ -260,3 +268,83 @@ c.ensure('unscoped_names_contain_no_slash_parts', lambda x: z3.Implies(
     z3.Not(x.a.scoped.e), world.str_split(x.result.e, sym.str_lit('/')).len == 1))
 c.raise_case('malformed', 'SyntaxError')
 register(c)
+
+
+# ==== value parsing: cursor discipline of the alternatives (C02) ================================
+ResPair = KTuple(KBool, KVal)
+
+
+def _moved(x):
+  return z3.And(pos(x.self_new) > pos(x.self_old), synced(x.self_new),
+                gen(x.self_new) == gen(x.self_old))
+
+
+def _unmoved(x):
+  return z3.And(pos(x.self_new) == pos(x.self_old), synced(x.self_new),
+                gen(x.self_new) == gen(x.self_old),
+                Token.box(cur(x.self_new)) == Token.box(cur(x.self_old)))
+
+
+def _alt_clauses(c):
+  c.result = ResPair
+  c.modifies_self = ['_current_token', 'ghost_pos']
+  c.ensure('failure_consumes_nothing', lambda x: z3.Implies(
+      z3.Not(x.result.items[0].e), _unmoved(x)))
+  c.ensure('success_consumes_something', lambda x: z3.Implies(x.result.items[0].e, _moved(x)))
+
+
+world.EXTERNALS['ast.literal_eval'] = 'ext::ast.literal_eval'
+c = Contract('ext::ast.literal_eval', ['C02'], kind='assumed')
+c.param('text', KStr)
+c.result = KVal
+c.ensure('functional', lambda x: x.result.e == sym.ufun('python_literal_eval', sym.Str,
+                                                        sym.Val)(x.a.text.e))
+c.may_raise_other = True
+c.assumptions.append('ast.literal_eval is a function of its text (the oracle of C02) and raises '
+                     'for text that is not a literal  [agreement with CPython: bounded bC02]')
+register(c)
+
+# -- _maybe_parse_basic_type ----------------------------------------------------------------------
+c = _parser_contract('_maybe_parse_basic_type', ['C02'])
+_alt_clauses(c)
+c.local_kinds = {'token_value': KStr, 'basic_type_tokens': KList(KInt), 'value': KVal}
+
+
+def _is_basic(t):
+  ty = t.fields['type'].e
+  return z3.Or(ty == toktype('NAME'), ty == toktype('NUMBER'), ty == toktype('STRING'))
+
+
+def _minus(t):
+  return t.fields['string'].e == sym.str_lit('-')
+
+
+c.ensure('fails_only_if_the_current_token_cannot_start_a_literal', lambda x: z3.Implies(
+    z3.Not(x.result.items[0].e), z3.And(z3.Not(_minus(cur(x.self_old))),
+                                         z3.Not(_is_basic(cur(x.self_old))))))
+c.raise_case('not_a_literal', 'SyntaxError')
+c.loop(('continue_parsing', None), [Clause('cursor_only_moves_forward', lambda x, k: z3.And(
+    synced(x.env.self), gen(x.env.self) == gen(x.self_old), pos(x.env.self) >= pos(x.self_old),
+    z3.Or(x.env.continue_parsing.e, pos(x.env.self) > pos(x.self_old))))],
+       havoc=['self._current_token', 'self.ghost_pos'])
+register(c)
+
+# -- references and macros ------------------------------------------------------------------------
+world.VAL_METHOD_CONTRACTS['configurable_reference'] = 'ext::delegate.configurable_reference'
+world.VAL_METHOD_CONTRACTS['macro'] = 'ext::delegate.macro'
+for _nm, _ps in (('configurable_reference', [('scoped_selector', KStr), ('evaluate', KBool)]),
+                 ('macro', [('name', KStr)])):
+  c = Contract('ext::delegate.' + _nm, ['C02', 'C05'], kind='assumed')
+  c.param('self', KVal)
+  for _p, _k in _ps:
+    c.param(_p, _k)
+  c.result = KVal
+  c.may_raise_other = True
+  c.assumptions.append('the parser delegate is an arbitrary object (its real implementations '
+                       'are under contract in c_references.py)')
+  register(c)
+
+for _nm in ('_maybe_parse_configurable_reference', '_maybe_parse_macro'):
+  c = _parser_contract(_nm, ['C02', 'C03'])
+  _alt_clauses(c)
+  register(c)
